@@ -83,7 +83,82 @@ def gen_history(rnd, table):
     return ops
 
 
+def run_pending_case(case):
+    """A transfer is accepted (1xx) while its data connection is not made yet; the session then
+    sends USER for another account (331, no PASS) and only afterwards connects the data
+    channel.  Whatever is delivered must be what the *original* login was entitled to; it must
+    never be the other account's data."""
+    rng = random.Random(case["seed"] * 7919 + 49)
+    net = scenario.random_net(rng, allow_small_pipe=False)
+    users = [{"login": None, "base_path": "/anon"}, {"login": "alice", "password": "secret", "base_path": "/alice"}]
+    sc = {"seed": case["seed"], "server": {"block_size": 16, "wait_future_timeout": 20.0, "users": users}, "net": net, "fs": {"delay": case.get("fs_delay"), "tree": {"/anon": None, "/anon/pub.txt": "PUBLIC-DATA", "/anon/d": None, "/alice": None, "/alice/pub.txt": "ALICE-PRIVATE", "/alice/diary": "ALICE-DIARY", "/alice/d": None, "/alice/d/hidden": "x"}}}
+    viol = []
+    info = {}
+    world = scenario.setup_world(sc)
+    with world:
+        server = scenario.finish_setup(world, sc)
+        peer = RawPeer(world, "s0", reply_timeout=100.0)
+        verb = case["verb"]
+
+        async def main():
+            await server.start("127.0.0.1", 2121)
+            await peer.connect()
+            await peer.cmd("USER anonymous")
+            await peer.passive(case.get("passive", "EPSV"))
+            line = {"RETR": "RETR pub.txt", "LIST": "LIST", "MLSD": "MLSD", "LISTD": "LIST d", "STOR": "STOR pub.txt"}[verb]
+            code, _ = await peer.cmd(line)
+            info["mark"] = code
+            c2, _ = await peer.cmd("USER alice")
+            info["user2"] = c2
+            if case.get("then_pass"):
+                await peer.cmd("PASS wrong")
+            await asyncio.sleep(case.get("delay", 0.01))
+            dr, dw = await peer.data_connect()
+            if verb == "STOR":
+                dw.write(b"OVERWRITTEN-BY-ANON")
+                dw.close()
+                data = b""
+            else:
+                peer.data = (dr, dw)
+                data, how = await peer.recv_all(timeout=60.0)
+            peer.data_close()
+            info["data"] = data
+            try:
+                while True:
+                    await peer.reply(30.0)
+            except Exception:
+                pass
+            snap = world.snapshot()
+            if b"ALICE" in data or b"diary" in data or b"hidden" in data:
+                viol.append({"clause": "other-accounts-data-served", "subject": verb, "detail": f"anonymous issued {line!r}, then USER alice (no password) before connecting the data channel: the data channel delivered {data[:80]!r}"})
+            if snap.get("/alice/pub.txt") != b"ALICE-PRIVATE" or set(k for k in snap if k.startswith("/alice")) != {"/alice", "/alice/pub.txt", "/alice/diary", "/alice/d", "/alice/d/hidden"}:
+                viol.append({"clause": "other-accounts-tree-changed", "subject": verb, "detail": "a transfer started by anonymous changed alice's tree after USER alice without a password"})
+            peer.close()
+            await asyncio.sleep(1)
+            await asyncio.wait_for(server.close(), 1e4)
+
+        world.run(main())
+        if world.outcome not in ("ok", "budget", "deadlock"):
+            raise common.HarnessError(f"scenario failed: {world.outcome}: {world.error!r}")
+        res = {
+            "digest": world.digest([tuple(x[1:]) for x in peer.transcript]),
+            "nontrivial": info.get("mark", "")[:1] == "1" and info.get("user2") == "331",
+            "vtime": world.loop.time() - 1000.0,
+            "events": world.net.seq,
+            "steps": world.loop.steps,
+            "outcome": world.outcome,
+            "counters": {"probe.user_switch_while_transfer_pending": int(info.get("mark", "")[:1] == "1" and info.get("user2") == "331")},
+            "groups": {"table": {"pending": 1}},
+            "violations": viol,
+        }
+        if case.get("want_sample"):
+            res["sample"] = {"case": case, "transcript": [list(x) for x in peer.transcript][:30]}
+    return res
+
+
 def run_case(case):
+    if case.get("kind") == "pending":
+        return run_pending_case(case)
     rng = random.Random(case["seed"] * 7919 + 47)
     net = scenario.random_net(rng, allow_small_pipe=False)
     if case.get("net"):
@@ -178,6 +253,8 @@ def minimise(case, violation):
 
     cur = copy.deepcopy(case)
     cur.pop("want_sample", None)
+    if cur.get("kind") == "pending":
+        return cur, violation
     i = len(cur["ops"]) - 1
     budget = 80
     while i >= 0 and budget > 0:
@@ -222,6 +299,11 @@ def main(argv=None):
     n = 3000 if quick else 400000
     with common.Pool() as pool:
         core = core_cases(a.seed)
+        for vi, verb in enumerate(("RETR", "LIST", "MLSD", "LISTD", "STOR")):
+            for pv in ("EPSV", "PASV"):
+                for tp in (False, True):
+                    for d in (0.0, 0.01, 1.0):
+                        core.append({"kind": "pending", "seed": a.seed * 1000 + vi * 50 + len(core), "verb": verb, "passive": pv, "then_pass": tp, "delay": d, "fs_delay": [0.0001, 0.002] if d else None})
         cases = list(core)
         for i in range(n):
             s = a.seed * 1_000_000 + i
